@@ -1,6 +1,7 @@
 import AslModel.Date
 import AslProofs.Date
 import AslProofs.DateParse
+import AslProofs.DateFmt
 /-!
 # C19 — Date converts between epoch seconds and UTC calendar fields as a bijection
 
@@ -14,7 +15,7 @@ that is 0 at 1970 and grows by the length of each year, and independently Hinnan
 Time values are integer milliseconds since 1970-01-01T00:00:00Z.
 -/
 namespace C19
-open AslModel.Date Gen.Date AslProofs.Date AslProofs.DateParse
+open AslModel.Date Gen.Date AslProofs.Date AslProofs.DateParse AslProofs.DateFmt
 
 /-! ## specification -/
 namespace Cal
@@ -229,5 +230,83 @@ theorem parse_fmt_total (s fmt : Bytes) : ∃ r, parseFmt s fmt = some r := pars
 
 example : parse [120] = some none := by decide
 example : parseFmt [49, 50] [68, 63, 77, 63, 89] = some (some 0) := by decide
+
+/-! ## formatting and parsing back
+
+`tMax` is 9999-12-31T23:59:59.999Z.  `toUTCString k t` is `Date(t).toUTCString(k)`; `parse` is `Date(const String&)`. -/
+
+def tMax : Int := 253402300799999
+
+/-- ISO long format (`yyyy-mm-ddThh:mm:ssZ`) parses back to the instant (to the second), every instant of years 0..9999 -/
+theorem format_parse_long (t : Int) (h0 : t0 ≤ t) (h1 : t ≤ tMax) :
+    parse (toUTCString .long t) = some (some (t - t % 1000)) := by
+  unfold t0 at h0; unfold tMax at h1
+  obtain ⟨a, b, c, d, e, f, g⟩ := roundtrip_facts t h0 h1
+  unfold toUTCString
+  rw [fmt_long_eq, parse_longList _ _ _ _ _ _ a b c d e f, g]
+
+/-- ISO short (basic) format `yyyymmddThhmmssZ` -/
+theorem format_parse_short (t : Int) (h0 : t0 ≤ t) (h1 : t ≤ tMax) :
+    parse (toUTCString .short t) = some (some (t - t % 1000)) := by
+  unfold t0 at h0; unfold tMax at h1
+  obtain ⟨a, b, c, d, e, f, g⟩ := roundtrip_facts t h0 h1
+  unfold toUTCString
+  rw [fmt_short_eq, parse_shortList _ _ _ _ _ _ a b c d e f, g]
+
+/-- ISO full format with milliseconds parses back to the instant exactly (to the millisecond) -/
+theorem format_parse_millis (t : Int) (h0 : t0 ≤ t) (h1 : t ≤ tMax) :
+    parse (toUTCString .full t) = some (some t) := by
+  unfold t0 at h0; unfold tMax at h1
+  obtain ⟨a, b, c, d, e, f, g⟩ := roundtrip_facts t h0 h1
+  unfold toUTCString
+  have hms : (t % 1000).toNat ≤ 999 := by omega
+  rw [fmt_full_eq, parse_fullList _ _ _ _ _ _ _ a b c d e f hms, g]
+  simp only [Option.map]
+  congr 2
+  omega
+
+/-- the statement for all four formats of the property; the HTTP format is not proved (validated by the correspondence
+check and by the harness's oracle on every scanned instant) -/
+def format_parse_full : Prop :=
+  ∀ t, t0 ≤ t → t ≤ tMax →
+    parse (toUTCString .long t) = some (some (t - t % 1000)) ∧ parse (toUTCString .short t) = some (some (t - t % 1000)) ∧
+    parse (toUTCString .http t) = some (some (t - t % 1000)) ∧ parse (toUTCString .full t) = some (some t)
+
+theorem format_parse_partial (t : Int) (h0 : t0 ≤ t) (h1 : t ≤ tMax) :
+    parse (toUTCString .long t) = some (some (t - t % 1000)) ∧ parse (toUTCString .short t) = some (some (t - t % 1000)) ∧
+    parse (toUTCString .full t) = some (some t) :=
+  ⟨format_parse_long t h0 h1, format_parse_short t h0 h1, format_parse_millis t h0 h1⟩
+
+example : toUTCString .full 951868799123 = [50, 48, 48, 48, 45, 48, 50, 45, 50, 57, 84, 50, 51, 58, 53, 57, 58, 53, 57, 46, 49, 50, 51, 90] := by decide
+
+/-! ## numeric zone offsets
+
+The local date-time `y-m-d h:mi:s` followed by `+hh:mm` denotes the UTC instant `local − offset` (and `-hh:mm`
+denotes `local + offset`), for every two-digit `hh`, `mm` (so in particular for all offsets −23:59..+23:59), in the
+spellings `±hh:mm`, `±hhmm` and `±hh`.  The strings are given as explicit byte lists (`zoneColonList` etc.:
+`yyyy-mm-ddThh:mm:ss` followed by the sign and the digits). -/
+
+theorem zone_offset_colon (y m d h mi s hh mm : Nat) (plus : Bool) (hy : y ≤ 9999) (hm : m ≤ 99) (hd : d ≤ 99) (hh' : h ≤ 23)
+    (hmi : mi ≤ 59) (hs : s ≤ 59) (hhh : hh ≤ 99) (hmm : mm ≤ 99) :
+    parse (zoneColonList y m d h mi s plus hh mm) =
+      some ((construct y m d h mi s).map fun local_ => local_ + (if plus then -((hh : Int) * 60 + mm) else (hh : Int) * 60 + mm) * 60000) :=
+  parse_zoneColonList y m d h mi s plus hh mm hy hm hd hh' hmi hs hhh hmm
+
+theorem zone_offset_compact (y m d h mi s hh mm : Nat) (plus : Bool) (hy : y ≤ 9999) (hm : m ≤ 99) (hd : d ≤ 99) (hh' : h ≤ 23)
+    (hmi : mi ≤ 59) (hs : s ≤ 59) (hhh : hh ≤ 99) (hmm : mm ≤ 99) :
+    parse (zoneCompactList y m d h mi s plus hh mm) =
+      some ((construct y m d h mi s).map fun local_ => local_ + (if plus then -((hh : Int) * 60 + mm) else (hh : Int) * 60 + mm) * 60000) :=
+  parse_zoneCompactList y m d h mi s plus hh mm hy hm hd hh' hmi hs hhh hmm
+
+theorem zone_offset_hour (y m d h mi s hh : Nat) (plus : Bool) (hy : y ≤ 9999) (hm : m ≤ 99) (hd : d ≤ 99) (hh' : h ≤ 23)
+    (hmi : mi ≤ 59) (hs : s ≤ 59) (hhh : hh ≤ 99) :
+    parse (zoneHourList y m d h mi s plus hh 0) =
+      some ((construct y m d h mi s).map fun local_ => local_ + (if plus then -((hh : Int) * 60 + 0) else (hh : Int) * 60 + 0) * 60000) :=
+  parse_zoneHourList y m d h mi s plus hh 0 hy hm hd hh' hmi hs hhh (by omega)
+
+/-- "2021-11-29T23:31:10+01:30" is 22:01:10 UTC -/
+example : parse (zoneColonList 2021 11 29 23 31 10 true 1 30) = some (some 1638223270000) := by decide
+example : zoneColonList 2021 11 29 23 31 10 true 1 30 =
+    [50, 48, 50, 49, 45, 49, 49, 45, 50, 57, 84, 50, 51, 58, 51, 49, 58, 49, 48, 43, 48, 49, 58, 51, 48] := by decide
 
 end C19
